@@ -60,6 +60,7 @@ impl BoxcarScript {
 }
 
 #[derive(Debug, Clone)]
+#[allow(dead_code)]
 enum Ev {
     Push { inv: u64, ret: u64, uid: u32, idx: Option<u32> },
     Extend { inv: u64, ret: u64, uids: Vec<u32>, reported: u32, filled: u32, ok: bool },
